@@ -225,7 +225,9 @@ JUpd(J, k, v) == IF k \in DOMAIN J THEN (IF J[k][Len(J[k])] = v THEN J ELSE [J E
 
 AddViol(cs, a, r) ==
   /\ nviol' = [c \in Comps |-> nviol[c] + (IF c \in cs THEN 1 ELSE 0)]
-  /\ viol' = IF cs # {} /\ Len(viol) < 40 THEN Append(viol, [c |-> cs, l |-> l, run |-> run, what |-> What(a, r)]) ELSE viol
+  \* samples are kept per set of components (at most 8 each), so that a flood of one kind cannot crowd out another
+  /\ viol' = IF cs # {} /\ Len(viol) < 160 /\ Len(SelectSeq(viol, LAMBDA x : x.c = cs)) < 8
+             THEN Append(viol, [c |-> cs, l |-> l, run |-> run, what |-> What(a, r)]) ELSE viol
 
 Line ==
   /\ l <= Len(Trace)
